@@ -1166,6 +1166,75 @@ def do_color_search(req):
     return {'tried': tried, 'found': None}
 
 
+def do_process_column_case(req):
+    """the process column of formatted_traces over a stream with every kind of declaring record, against the tables the dump
+    declares at each point (model written from the property: thread map, then new-thread / terminate-pid / sampler records)"""
+    import struct
+    import pykdebugparser.pykdebugparser as M
+    from pykdebugparser.kevent import from_kd_buf
+    inv = {v: k for k, v in _cached_codes().items()}
+    recs = []
+
+    def add(name, tid, q, vals=(0, 0, 0, 0), text=None):
+        d = text.ljust(32, b'\0') if text is not None else struct.pack('<QQQQ', *vals)
+        recs.append((name, tid, q, vals, text))
+        return from_kd_buf(struct.pack('<Q32sQIIQ', len(recs), d, tid, inv[name] | q, 0, 0))
+    stream = [add('BSC_getpid', 5, 1), add('BSC_getpid', 5, 2, (0, 42, 0, 0)),
+              add('PERF_THD_Data', 7, 0, (10, 9, 0, 0)),
+              add('BSC_getpid', 9, 1), add('BSC_getpid', 9, 2, (0, 10, 0, 0)),
+              add('TRACE_DATA_NEWTHREAD', 5, 0, (11, 42, 0, 0)), add('TRACE_STRING_NEWTHREAD', 5, 0, text=b'kid'),
+              add('BSC_getpid', 11, 1), add('BSC_getpid', 11, 2, (0, 42, 0, 0)),
+              add('TRACE_DATA_THREAD_TERMINATE_PID', 9, 0, (77, 1, 0, 0)),
+              add('BSC_getppid', 9, 1), add('BSC_getppid', 9, 2, (0, 1, 0, 0)),
+              add('BSC_getpid', 13, 1), add('BSC_getpid', 13, 2, (0, 1, 0, 0))]
+
+    class FakeParser:
+        def __init__(self, tp=None, pn=None):
+            self.tp, self.pn = tp, pn
+
+        def parse(self, reader):
+            self.tp.clear()
+            self.pn.clear()
+            self.tp[5] = 42
+            self.pn[42] = 'proc'
+            return iter(list(stream))
+    M.KdBufParser = FakeParser
+    p = M.PyKdebugParser()
+    p.color = False
+    p.show_timestamp = p.show_tid = False
+    p.show_process = True
+    # the model
+    tp, pn, last = {5: 42}, {42: 'proc'}, {}
+    want = []
+    for name, tid, q, vals, text in recs:
+        if name == 'PERF_THD_Data':
+            tp[vals[1]] = vals[0]
+        elif name == 'TRACE_DATA_NEWTHREAD':
+            tp[vals[0]] = vals[1]
+            last[tid] = vals[1]
+        elif name == 'TRACE_STRING_NEWTHREAD' and tid in last:
+            pn[last[tid]] = text.decode()
+        elif name == 'TRACE_DATA_THREAD_TERMINATE_PID':
+            tp[tid] = vals[0]
+        if q in (0, 2):
+            pid = tp.get(tid)
+            want.append((name, tid, None if pid is None else '%s(%d)' % (pn.get(pid, ''), pid)))
+    try:
+        lines = list(p.formatted_traces(None))
+    except BaseException as ex:  # noqa
+        return {'violates': True, 'what': 'formatted_traces raised %s: %s' % (type(ex).__name__, ex)}
+    if len(lines) != len(want):
+        return {'violates': True, 'what': '%d lines for %d traces' % (len(lines), len(want))}
+    for ln, (name, tid, col) in zip(lines, want):
+        head = ln[:34].rstrip()
+        if col is None:
+            if '(' in head and head.endswith(')') and 'rror' not in head:
+                return {'violates': True, 'what': 'thread %d was never declared by the dump, the line %r attributes it to a process' % (tid, ln)}
+        elif head != col:
+            return {'violates': True, 'what': 'the line of %s on thread %d reads %r: the dump declares %s for this thread at that point of the stream' % (name, tid, ln, col)}
+    return {'violates': False, 'lines': len(lines)}
+
+
 def do_format_case(req):
     """composition of columns and freshness of the process column"""
     from pykdebugparser.pykdebugparser import PyKdebugParser
@@ -1222,9 +1291,16 @@ def do_format_case(req):
     return {'violates': viol, 'what': what}
 
 
+HANDLERS['process_column_case'] = do_process_column_case
+
+
 def do_format_search(req):
     import itertools
-    tried = 0
+    tried = 1
+    r = do_process_column_case({})
+    if r['violates']:
+        r['request'] = {'kind': 'process_column_case'}
+        return {'tried': tried, 'found': r}
     for which in ('kevent', 'trace', 'callstack'):
         for setting in itertools.product([False, True], repeat=6):
             tried += 1
